@@ -241,6 +241,7 @@ def run_history(name, db, ack_fd, on_point, ctx=None, seed=0):
             gen.init([[0.25, -1.0], [0.75, 1.5]])
             alg = SweepAlgorithm(problem, generator=gen)
             alg.options['max_processes'] = 2
+            problem._verif_schedulers = h
             alg.run()
     return problem
 
@@ -398,6 +399,8 @@ def inspect_one(db, ack_path, created, desc):
             out.append(("C11:torn-row:unparsable", "row %r = %r; %s" % (rid, js[:60], desc)))
             continue
         if costs == []:
+            if str(d.get("state", "")).lower().endswith("evaluated"):
+                out.append(("C11:torn-row:marked-evaluated-without-costs", "row %r (vector %r) is in state %r with costs []; %s" % (rid, vec, d.get("state"), desc)))
             if signed != []:
                 out.append(("C11:torn-row:signed-without-costs", "row %r; %s" % (rid, desc)))
             continue
@@ -582,19 +585,31 @@ def _shard(shard, col: Collector):
         col.sample({"history": name, "level": "syscall", "crash_points_in_shard": [list(p) for p in points[:3]] + ["..."]}, 1)
 
 
-def h3_schedules(bound):
-    """Enumerate the schedules (choice sequences) of H3 within the pre-emption bound, in a child-free dry run."""
+def overlapping_first_in_first_out(trace):
+    """True if, in this schedule, the objective call that began first also ends first while the other one is still running
+    (needs two pre-emptions: into the second worker after the first has entered its objective, and back again)."""
+    ev = [(t, lab) for t, lab in trace if lab in ("obj:enter", "obj:exit")]
+    return len(ev) >= 3 and ev[0][1] == "obj:enter" and ev[1][1] == "obj:enter" and ev[1][0] != ev[0][0] and ev[2] == (ev[0][0], "obj:exit")
+
+
+def h3_schedules(bound, only=None):
+    """Enumerate the schedules (choice sequences) of H3 within the pre-emption bound, in a child-free dry run.
+    only: a predicate over the (thread, label) trace of the schedule."""
     from ..core.common import Collector as C
     seqs = []
 
     def body(ctx):
         db, ack = paths("H3dry")
         fd = os.open(ack, os.O_WRONLY | os.O_CREAT | os.O_APPEND, 0o600)
+        trace = []
         try:
-            run_history("H3", db, fd, lambda label: None, ctx, 0)
+            pr = run_history("H3", db, fd, lambda label: None, ctx, 0)
+            for sch in getattr(pr, "_verif_schedulers", {}).get("all", []):
+                trace += list(sch.trace)          # (worker, label of the point the worker is resumed from)
         finally:
             os.close(fd)
-        seqs.append(list(ctx.choices))
+        if only is None or only(trace):
+            seqs.append(list(ctx.choices))
         ctx.digest = tuple(ctx.choices)
         return []
     explore(body, C(), bound=bound, check_determinism=False)
@@ -622,6 +637,11 @@ def run(tier, seed):
     import artap.algorithm_sweep, artap.algorithm_NSGAII, artap.datastore  # noqa: F401,E401
     shards = [("event", "H1", seed), ("event", "H2", seed), ("event", "H4", seed), ("event", "H5", seed), ("event", "H6", seed), ("event", "H8", seed), ("event", "H10", seed), ("event", "H11", seed), ("event", "H9", seed), ("event", "H9d", seed)] + [("event", "H7", seed, (i, 6)) for i in range(6)] + [("event", "H7r", seed, (i, 3)) for i in range(3)]
     scheds = h3_schedules(2 if tier == "thorough" else 1)
+    if tier != "thorough":
+        # the two-pre-emption schedules in which the objective call that began first also ends first while the other one is
+        # still running (what shared per-Job scratch state needs in order to show in the file); thorough has all of bound 2
+        more = [s for s in h3_schedules(2, overlapping_first_in_first_out) if s not in scheds]
+        scheds = scheds + more
     shards += [("h3", tuple(s), seed) for s in scheds]
     extra = {"h3_schedules": len(scheds)}
     if True:
@@ -642,3 +662,4 @@ def run(tier, seed):
     col = run_shards(_shard, shards)
     extra["exhaustive"] = True
     return col, extra
+RULE += (' Quick adds to the <=1 pre-emption schedules of the 2-worker sweep the two-pre-emption schedules whose objective calls overlap first-in-first-out; a row marked evaluated with empty costs counts as partially written.')
